@@ -20,3 +20,40 @@ package ast
 //@   props C04
 //@   pure
 //@   nothrow
+
+// The walker never hands a nil node to a visitor (C04): an interface holding a nil
+// pointer must not reach Walk, so every recursive call is an obligation.
+// the node types Walk knows (any other implementation of Node makes it panic on purpose)
+//@ spec astNode(n Node) bool = isnil(n) || is(n, *ArrayLiteral) || is(n, *AssignExpression) || is(n, *BadExpression) || is(n, *BadStatement) || is(n, *BinaryExpression) || is(n, *BlockStatement) || is(n, *BooleanLiteral) || is(n, *BracketExpression) || is(n, *BranchStatement) || is(n, *CallExpression) || is(n, *CaseStatement) || is(n, *CatchStatement) || is(n, *ConditionalExpression) || is(n, *DebuggerStatement) || is(n, *DoWhileStatement) || is(n, *DotExpression) || is(n, *EmptyExpression) || is(n, *EmptyStatement) || is(n, *ExpressionStatement) || is(n, *ForInStatement) || is(n, *ForStatement) || is(n, *FunctionLiteral) || is(n, *FunctionStatement) || is(n, *Identifier) || is(n, *IfStatement) || is(n, *LabelledStatement) || is(n, *NewExpression) || is(n, *NullLiteral) || is(n, *NumberLiteral) || is(n, *ObjectLiteral) || is(n, *Program) || is(n, *RegExpLiteral) || is(n, *ReturnStatement) || is(n, *SequenceExpression) || is(n, *StringLiteral) || is(n, *SwitchStatement) || is(n, *ThisExpression) || is(n, *ThrowStatement) || is(n, *TryStatement) || is(n, *UnaryExpression) || is(n, *VariableExpression) || is(n, *VariableStatement) || is(n, *WhileStatement) || is(n, *WithStatement)
+//@ spec childOK(n Node) bool = !typednil(n) && astNode(n)
+//@ func Walk
+//@   props C04
+//@   safety C04
+//@   requires v != nil && !typednil(n) && astNode(n)
+//@   assume_loads childOK
+
+// spans of nodes whose position is computed from a list element (C04)
+//@ func (*Program).Idx0
+//@   props C04
+//@   safety C04
+//@   requires p != nil
+//@ func (*Program).Idx1
+//@   props C04
+//@   safety C04
+//@   requires p != nil
+//@ func (*CaseStatement).Idx1
+//@   props C04
+//@   safety C04
+//@   requires cs != nil
+//@ func (*SequenceExpression).Idx0
+//@   props C04
+//@   safety C04
+//@   requires se != nil
+//@ func (*SequenceExpression).Idx1
+//@   props C04
+//@   safety C04
+//@   requires se != nil
+//@ func (*VariableStatement).Idx1
+//@   props C04
+//@   safety C04
+//@   requires vs != nil && len(vs.List) >= 1
